@@ -271,6 +271,12 @@ func (l *log) Get(offset int64) (message.Message, error) {
 	}
 
 	msg, err := rdr.Get(offset)
+	// The head segment is empty right after a rollover or when the tail of the
+	// log was deleted: the newest message is then in an older segment.
+	for offset == message.OffsetNewest && err == index.ErrOffsetIndexEmpty && segmentIndex > 0 {
+		segmentIndex--
+		msg, err = l.readers[segmentIndex].Get(offset)
+	}
 	if err == index.ErrOffsetAfterEnd && segmentIndex < len(l.readers)-1 {
 		return msg, index.ErrOffsetNotFound
 	}
